@@ -134,4 +134,68 @@ def eraseSlot : Slot → St → St
 
 def eraseAll (ws : List Slot) (s : St) : St := ws.foldl (fun acc w => eraseSlot w acc) s
 
+/-- `copySlot w x s`: `s` with slot `w` taken from `x` -/
+def copySlot : Slot → St → St → St
+  | .f_deleteFrom, x, s => { s with r := { s.r with fl := { s.r.fl with deleteFrom := x.r.fl.deleteFrom } } }
+  | .f_replace_, x, s => { s with r := { s.r with fl := { s.r.fl with replace_ := x.r.fl.replace_ } } }
+  | .f_distinct, x, s => { s with r := { s.r with fl := { s.r.fl with distinct := x.r.fl.distinct } } }
+  | .f_ignore, x, s => { s with r := { s.r with fl := { s.r.fl with ignore := x.r.fl.ignore } } }
+  | .f_forUpdate, x, s => { s with r := { s.r with fl := { s.r.fl with forUpdate := x.r.fl.forUpdate } } }
+  | .f_withTotals, x, s => { s with r := { s.r with fl := { s.r.fl with withTotals := x.r.fl.withTotals } } }
+  | .f_mysqlRollup, x, s => { s with r := { s.r with fl := { s.r.fl with mysqlRollup := x.r.fl.mysqlRollup } } }
+  | .f_selectInto, x, s => { s with r := { s.r with fl := { s.r.fl with selectInto := x.r.fl.selectInto } } }
+  | .f_foreignTable, x, s => { s with r := { s.r with fl := { s.r.fl with foreignTable := x.r.fl.foreignTable } } }
+  | .f_limit, x, s => { s with r := { s.r with fl := { s.r.fl with limit := x.r.fl.limit } } }
+  | .f_offset, x, s => { s with r := { s.r with fl := { s.r.fl with offset := x.r.fl.offset } } }
+  | .f_forceIndexes, x, s => { s with r := { s.r with fl := { s.r.fl with forceIndexes := x.r.fl.forceIndexes } } }
+  | .f_useIndexes, x, s => { s with r := { s.r with fl := { s.r.fl with useIndexes := x.r.fl.useIndexes } } }
+  | .f_ignoreDuplicates, x, s => { s with r := { s.r with fl := { s.r.fl with ignoreDuplicates := x.r.fl.ignoreDuplicates } } }
+  | .f_modifiers, x, s => { s with r := { s.r with fl := { s.r.fl with modifiers := x.r.fl.modifiers } } }
+  | .f_forUpdateNowait, x, s => { s with r := { s.r with fl := { s.r.fl with forUpdateNowait := x.r.fl.forUpdateNowait } } }
+  | .f_forUpdateSkipLocked, x, s => { s with r := { s.r with fl := { s.r.fl with forUpdateSkipLocked := x.r.fl.forUpdateSkipLocked } } }
+  | .f_forUpdateOf, x, s => { s with r := { s.r with fl := { s.r.fl with forUpdateOf := x.r.fl.forUpdateOf } } }
+  | .f_onConflict, x, s => { s with r := { s.r with fl := { s.r.fl with onConflict := x.r.fl.onConflict } } }
+  | .f_onConflictDoNothing, x, s => { s with r := { s.r with fl := { s.r.fl with onConflictDoNothing := x.r.fl.onConflictDoNothing } } }
+  | .f_top, x, s => { s with r := { s.r with fl := { s.r.fl with top := x.r.fl.top } } }
+  | .f_topPercent, x, s => { s with r := { s.r with fl := { s.r.fl with topPercent := x.r.fl.topPercent } } }
+  | .f_topWithTies, x, s => { s with r := { s.r with fl := { s.r.fl with topWithTies := x.r.fl.topWithTies } } }
+  | .f_final, x, s => { s with r := { s.r with fl := { s.r.fl with final := x.r.fl.final } } }
+  | .f_sample, x, s => { s with r := { s.r with fl := { s.r.fl with sample := x.r.fl.sample } } }
+  | .f_sampleOffset, x, s => { s with r := { s.r with fl := { s.r.fl with sampleOffset := x.r.fl.sampleOffset } } }
+  | .f_limitBy, x, s => { s with r := { s.r with fl := { s.r.fl with limitBy := x.r.fl.limitBy } } }
+  | .f_hint, x, s => { s with r := { s.r with fl := { s.r.fl with hint := x.r.fl.hint } } }
+  | .f_insertOrReplace, x, s => { s with r := { s.r with fl := { s.r.fl with insertOrReplace := x.r.fl.insertOrReplace } } }
+  | .r_from_, x, s => { s with r := { s.r with from_ := x.r.from_ } }
+  | .r_withs, x, s => { s with r := { s.r with withs := x.r.withs } }
+  | .r_selects, x, s => { s with r := { s.r with selects := x.r.selects } }
+  | .r_insertTable, x, s => { s with r := { s.r with insertTable := x.r.insertTable } }
+  | .r_updateTable, x, s => { s with r := { s.r with updateTable := x.r.updateTable } }
+  | .r_columns, x, s => { s with r := { s.r with columns := x.r.columns } }
+  | .r_values, x, s => { s with r := { s.r with values := x.r.values } }
+  | .r_wheres, x, s => { s with r := { s.r with wheres := x.r.wheres } }
+  | .r_prewheres, x, s => { s with r := { s.r with prewheres := x.r.prewheres } }
+  | .r_havings, x, s => { s with r := { s.r with havings := x.r.havings } }
+  | .r_groupbys, x, s => { s with r := { s.r with groupbys := x.r.groupbys } }
+  | .r_orderbys, x, s => { s with r := { s.r with orderbys := x.r.orderbys } }
+  | .r_joins, x, s => { s with r := { s.r with joins := x.r.joins } }
+  | .r_updates, x, s => { s with r := { s.r with updates := x.r.updates } }
+  | .r_usingSrcs, x, s => { s with r := { s.r with usingSrcs := x.r.usingSrcs } }
+  | .r_duplicateUpdates, x, s => { s with r := { s.r with duplicateUpdates := x.r.duplicateUpdates } }
+  | .r_returns, x, s => { s with r := { s.r with returns := x.r.returns } }
+  | .r_onConflictFields, x, s => { s with r := { s.r with onConflictFields := x.r.onConflictFields } }
+  | .r_onConflictDoUpdates, x, s => { s with r := { s.r with onConflictDoUpdates := x.r.onConflictDoUpdates } }
+  | .r_onConflictWheres, x, s => { s with r := { s.r with onConflictWheres := x.r.onConflictWheres } }
+  | .r_onConflictDoUpdateWheres, x, s => { s with r := { s.r with onConflictDoUpdateWheres := x.r.onConflictDoUpdateWheres } }
+  | .r_distinctOn, x, s => { s with r := { s.r with distinctOn := x.r.distinctOn } }
+  | .r_limitByTerms, x, s => { s with r := { s.r with limitByTerms := x.r.limitByTerms } }
+  | .h_selectStar, x, s => { s with selectStar := x.selectStar }
+  | .h_starTables, x, s => { s with starTables := x.starTables }
+  | .h_subCount, x, s => { s with subCount := x.subCount }
+  | .h_returnStar, x, s => { s with returnStar := x.returnStar }
+
+def copyAll (ws : List Slot) (x s : St) : St := ws.foldl (fun acc w => copySlot w x acc) s
+
+def allSlots : List Slot :=
+  [.f_deleteFrom, .f_replace_, .f_distinct, .f_ignore, .f_forUpdate, .f_withTotals, .f_mysqlRollup, .f_selectInto, .f_foreignTable, .f_limit, .f_offset, .f_forceIndexes, .f_useIndexes, .f_ignoreDuplicates, .f_modifiers, .f_forUpdateNowait, .f_forUpdateSkipLocked, .f_forUpdateOf, .f_onConflict, .f_onConflictDoNothing, .f_top, .f_topPercent, .f_topWithTies, .f_final, .f_sample, .f_sampleOffset, .f_limitBy, .f_hint, .f_insertOrReplace, .r_from_, .r_withs, .r_selects, .r_insertTable, .r_updateTable, .r_columns, .r_values, .r_wheres, .r_prewheres, .r_havings, .r_groupbys, .r_orderbys, .r_joins, .r_updates, .r_usingSrcs, .r_duplicateUpdates, .r_returns, .r_onConflictFields, .r_onConflictDoUpdates, .r_onConflictWheres, .r_onConflictDoUpdateWheres, .r_distinctOn, .r_limitByTerms, .h_selectStar, .h_starTables, .h_subCount, .h_returnStar]
+
 end Pypika.B
